@@ -1,4 +1,209 @@
-(* C03 placeholder while proofs are being written; replaced below. *)
-From PV Require Import Sim.Model.
-Theorem C03_placeholder : True. Proof. exact I. Qed.
-Print Assumptions C03_placeholder.
+(* C03 -- run horizon: bounded runs execute exactly the events up to the bound,
+   nothing runs later than the replication end, the simulation stays resumable,
+   and any segmentation equals the uninterrupted run.
+
+   Statements about the simulator model Sim/Model.v (tied to simulator.py by
+   harness/c03.py on every run), for every model program, every fuel, every
+   bound and every sequence of run commands.  Proofs: Sim/Horizon.v (on top of
+   Sim/Order.v). *)
+From Coq Require Import ZArith List Bool.
+From PV Require Import EventList.Key Sim.Model Sim.Order Sim.Horizon.
+Import ListNotations.
+Local Open Scope Z_scope.
+
+(* ---- clause: "Running up to a time t executes exactly the pending events
+   with time earlier than t (up to and including t for the inclusive variant,
+   and for a plain start whose bound is the replication end), leaves the clock
+   at the bound" ----------------------------------------------------------------
+   [do_start fuel p s (TNum bz) i] is run_up_to (i = false) / run_up_to_including
+   (i = true) / start (bz = end, i = true); [clamp] cuts a bound beyond the end
+   back to the end (inclusive).  [calm]: the program does not interrupt the run
+   (no stop() from a handler, no failing handler under WARN_AND_PAUSE) --
+   interrupted runs are what the segmentation theorem is about.  [flag = false]
+   excludes fuel exhaustion. *)
+Theorem C03_bounded_run_exact : forall p fuel s bz i,
+  Inv s -> Acct s -> worker s = WAlive -> calm (strat s) p ->
+  start_checks s = true -> clock s <= bz ->
+  let s' := fst (do_start fuel p s (TNum bz) i) in
+  let b := fst (clamp s bz i) in let ic := snd (clamp s bz i) in
+  flag s' = false ->
+  exists evs newc,
+    executed s' = rev evs ++ executed s
+    /\ created s' = created s ++ newc
+    /\ clock s' = b
+    /\ (forall e, In e evs -> In e (pend s) \/ In e newc)
+    /\ (forall e, In e (pend s) \/ In e newc ->
+          (In e evs <-> (~ In e (cancelled s') /\ (if ic then ev_time e <= b else ev_time e < b))))
+    /\ (forall e, In e (pend s') -> if ic then b < ev_time e else b <= ev_time e).
+Proof. exact bounded_run_exact. Qed.
+Print Assumptions C03_bounded_run_exact.
+
+(* the events are taken in C02 order: the loop is a sequence of takes of the
+   key-minimum (C02_exec_is_minimum), all of them within the horizon *)
+Theorem C03_run_takes_only_within_bound : forall p s evs s',
+  runs p s evs s' -> Forall (fun e => beyond s e = false) evs.
+Proof. intros p s evs s' H. apply (rw_within _ _ _ (runs_flow _ _ _ _ H)). Qed.
+Print Assumptions C03_run_takes_only_within_bound.
+
+(* ---- clause: "no command ever executes an event later than the replication
+   end" -------------------------------------------------------------------------- *)
+Theorem C03_never_past_end : forall p fuel s c,
+  Inv s ->
+  exists new, trace (fst (do_cmd fuel p s c)) = new ++ trace s
+              /\ Forall (fun ec => snd ec <= end_time s) new.
+Proof. exact never_past_end. Qed.
+Print Assumptions C03_never_past_end.
+
+(* ---- clause: "Unless the bound reached the replication end the simulation
+   stays resumable" -------------------------------------------------------------- *)
+Theorem C03_resumable : forall p fuel s bz i,
+  worker s = WAlive -> start_checks s = true -> clock s <= bz -> bz < end_time s ->
+  let s' := fst (do_start fuel p s (TNum bz) i) in
+  ps s' = PStarted
+  /\ (running s' = false /\ (ps s' = PInit \/ ps s' = PStarted) /\ worker s' = WAlive)
+  /\ clock s' <= bz /\ start_checks s' = true.
+Proof. exact resumable. Qed.
+Print Assumptions C03_resumable.
+
+(* the boundary, stated: a bound at (or beyond) the end ends the replication *)
+Theorem C03_bound_at_end_ends_or_pauses : forall p fuel s b i a,
+  Entered s b i a -> b <= end_time s ->
+  let s' := after_loop (run_loop fuel p a) in
+  (ps s' = PStarted /\ Live s') \/ (ps s' = PEnded /\ Over s' /\ b = end_time s).
+Proof. exact started_quiet. Qed.
+Print Assumptions C03_bound_at_end_ends_or_pauses.
+
+(* ---- clause: "splitting a replication into any sequence of bounded runs,
+   single steps and stop/start pauses produces exactly the same sequence of
+   executed events and the same final clock as one uninterrupted run" ----------
+   [is_runcmd]: start, step, stop, run_up_to t, run_up_to_including t (any t,
+   also NaN / past / beyond the end: refused or clamped), refused initialize.
+   Pauses are stop() calls inside handlers and failing handlers under
+   WARN_AND_PAUSE: [prog_equiv p p'] says p and p' have the same handler code
+   up to commands and to whatever follows a failure -- in particular p' may be
+   p with every stop() removed, or p itself.  [Quiet]: a quiescent state with
+   the replication not yet over (e.g. right after initialize) or over.
+   [ps = PEnded /\ incl = true]: the replication ended through an inclusive
+   bound (a cut exactly at the end with run_up_to leaves the events at the end
+   unexecuted and cannot be resumed: that boundary is excluded, not hidden). *)
+Theorem C03_segmentation : forall p p' fuel fuel' cs cs' s t,
+  prog_equiv p p' -> core_eq s t -> Quiet s -> Quiet t ->
+  forallb is_runcmd cs = true -> forallb is_runcmd cs' = true ->
+  let s1 := fst (run_cmds fuel p s cs) in
+  let t1 := fst (run_cmds fuel' p' t cs') in
+  ps s1 = PEnded -> incl s1 = true -> ps t1 = PEnded -> incl t1 = true ->
+  (pend s1 = pend t1 /\ nid s1 = nid t1 /\ created s1 = created t1 /\ trace s1 = trace t1
+   /\ cancelled s1 = cancelled t1 /\ rep s1 = rep t1)
+  /\ clock s1 = clock t1.
+Proof. exact segmentation. Qed.
+Print Assumptions C03_segmentation.
+
+(* the uninterrupted run is the instance cs' = [CStart] *)
+Theorem C03_segmentation_vs_uninterrupted : forall p p' fuel fuel' cs s,
+  prog_equiv p p' -> Quiet s -> forallb is_runcmd cs = true ->
+  let s1 := fst (run_cmds fuel p s cs) in
+  let t1 := fst (do_cmd fuel' p' s CStart) in
+  ps s1 = PEnded -> incl s1 = true -> ps t1 = PEnded -> incl t1 = true ->
+  trace s1 = trace t1 /\ clock s1 = clock t1.
+Proof.
+  intros p p' fuel fuel' cs s PE Q Hc s1 t1 P1 I1 P2 I2.
+  pose proof (segmentation p p' fuel fuel' cs [CStart] s s PE (core_eq_refl s) Q Q Hc eq_refl) as H.
+  cbv zeta in H. cbn [run_cmds] in H.
+  destruct (do_cmd fuel' p' s CStart) as [t2 res] eqn:E. cbn [fst] in *.
+  destruct (H P1 I1 P2 I2) as [(_&_&_&T&_) K]. auto.
+Qed.
+Print Assumptions C03_segmentation_vs_uninterrupted.
+
+(* however far a segmented run got, it executed a prefix of the completed run *)
+Theorem C03_segmentation_prefix : forall p p' fuel fuel' cs cs' s t,
+  prog_equiv p p' -> core_eq s t -> Quiet s -> Quiet t ->
+  forallb is_runcmd cs = true -> forallb is_runcmd cs' = true ->
+  let s1 := fst (run_cmds fuel p s cs) in
+  let t1 := fst (run_cmds fuel' p' t cs') in
+  ps t1 = PEnded -> incl t1 = true ->
+  exists k, trace t1 = k ++ trace s1.
+Proof. exact segmentation_prefix. Qed.
+Print Assumptions C03_segmentation_prefix.
+
+(* every run command keeps the state quiescent and moves its core along one
+   canonical sequence of states (the lemma behind both theorems) *)
+Theorem C03_run_cmds_follow_canonical_sequence : forall p fuel cs s,
+  forallb is_runcmd cs = true -> Quiet s ->
+  let s' := fst (run_cmds fuel p s cs) in
+  Quiet s' /\ exists n, core_eq s' (citer n (end_time s) true p s).
+Proof. exact run_cmds_citer. Qed.
+Print Assumptions C03_run_cmds_follow_canonical_sequence.
+
+(* run_until b2 (run_until b1 s) = run_until b2 s for b1 <= b2 *)
+Theorem C03_run_split : forall p f1 f2 f3 b1 i1 b2 i2 s,
+  calm (strat s) p ->
+  (forall e, beyondb b2 i2 e = true -> beyondb b1 i1 e = true) ->
+  let s1 := run_until f1 p b1 i1 s in
+  let s2 := run_until f2 p b2 i2 s1 in
+  let s3 := run_until f3 p b2 i2 s in
+  flag s1 = false -> flag s2 = false -> flag s3 = false ->
+  core_eq s2 s3 /\ clock s2 = clock s3.
+Proof. exact run_split. Qed.
+Print Assumptions C03_run_split.
+
+Theorem C03_bound_order : forall b1 i1 b2 i2,
+  b1 < b2 \/ (b1 = b2 /\ (i1 = true -> i2 = true)) ->
+  forall e, beyondb b2 i2 e = true -> beyondb b1 i1 e = true.
+Proof. exact hz_le_spec. Qed.
+Print Assumptions C03_bound_order.
+
+(* the state right after initialize is quiescent-and-live *)
+Theorem C03_after_initialize_live : forall p s r, running s = false -> Live (fst (do_init p s r)).
+Proof. exact do_init_live. Qed.
+Print Assumptions C03_after_initialize_live.
+
+(* ---- non-vacuity: a program with a stop() in a handler, run in pieces
+   (run_up_to 4, step, run_up_to_including 10, start (paused by the stop),
+   start) and uninterrupted with the stop removed; both reach the end and the
+   hypotheses of the segmentation theorem hold. ---- *)
+Definition ex_prog : program :=
+  [ [ASched (MAbs (TNum 4)) 5 1; ASched (MAbs (TNum 4)) 7 2; ASched (MRel (TNum 8)) 5 2;
+     ASched (MAbs (TNum 20)) 5 3; ASched (MAbs (TNum 12)) 5 2];
+    [ASched MNow 5 2; ACancel 2];
+    [];
+    [ACmd CStop; ASched (MRel (TNum 4)) 5 2] ].
+Definition ex_prog' : program :=
+  [ [ASched (MAbs (TNum 4)) 5 1; ASched (MAbs (TNum 4)) 7 2; ASched (MRel (TNum 8)) 5 2;
+     ASched (MAbs (TNum 20)) 5 3; ASched (MAbs (TNum 12)) 5 2];
+    [ASched MNow 5 2; ACancel 2];
+    [];
+    [ASched (MRel (TNum 4)) 5 2] ].
+Definition ex_s0 : sim := fst (do_cmd 100 ex_prog (init_sim SWarnPause) (CInit (mkRepl 0 0 40))).
+Definition ex_cuts : list cmd :=
+  [CRunUpTo (TNum 4); CStep; CRunUpToIncl (TNum 10); CStart; CStart].
+Definition ex_s1 : sim := fst (run_cmds 100 ex_prog ex_s0 ex_cuts).
+Definition ex_t1 : sim := fst (do_cmd 100 ex_prog' ex_s0 CStart).
+
+Example ex_hypotheses :
+  prog_equiv ex_prog ex_prog' /\ Quiet ex_s0 /\ forallb is_runcmd ex_cuts = true
+  /\ ps ex_s1 = PEnded /\ incl ex_s1 = true /\ ps ex_t1 = PEnded /\ incl ex_t1 = true.
+Proof.
+  split.
+  { intros h. do 5 (destruct h as [|h]; [reflexivity|]). destruct h; reflexivity. }
+  split; [left; apply do_init_live; reflexivity|].
+  vm_compute. repeat split.
+Qed.
+
+Example ex_traces :
+  map (fun ec => (ev_h (fst ec), snd ec)) (rev (trace ex_s1))
+    = [(HWarm, 0); (HUser 2%nat, 4); (HUser 1%nat, 4); (HUser 2%nat, 4); (HUser 2%nat, 12);
+       (HUser 3%nat, 20); (HUser 2%nat, 24)]
+  /\ trace ex_s1 = trace ex_t1 /\ clock ex_s1 = 40 /\ flag ex_s1 = false /\ flag ex_t1 = false.
+Proof. vm_compute. repeat split. Qed.
+
+Example ex_bounded_hypotheses :
+  Inv ex_s0 /\ Acct ex_s0 /\ worker ex_s0 = WAlive /\ calm (strat ex_s0) ex_prog'
+  /\ start_checks ex_s0 = true /\ clock ex_s0 <= 12
+  /\ flag (fst (do_start 100 ex_prog' ex_s0 (TNum 12) false)) = false.
+Proof.
+  split; [apply (do_cmd_inv ex_prog 100 _ (CInit (mkRepl 0 0 40)) (Inv_init _))|].
+  split; [apply (do_cmd_acct ex_prog 100 _ (CInit (mkRepl 0 0 40)) eq_refl (Inv_init _) (Acct_init _))|].
+  split; [reflexivity|]. split.
+  { intros h. do 5 (destruct h as [|h]; [reflexivity|]). destruct h; reflexivity. }
+  vm_compute. repeat split; discriminate.
+Qed.
